@@ -321,8 +321,10 @@ package stree
 //@   modifies c.path
 //@
 //@ func (*Cursor).Min
-//@   requires [C03] c != nil ==> pathOK(c)
-//@   ensures  [C03] same: result == c && (c != nil ==> pathOK(c))
+//@   ghost cmp func(T, T) int
+//@   requires [C03] c != nil ==> pathOK(c) && ordPath(c.path, cmp)
+//@   ensures  [C03] same: result == c && (c != nil ==> pathOK(c) && ordPath(c.path, cmp))
+//@   ensures  [C03] least: c != nil && old(len(c.path)) != 0 ==> rank(cmp, cur(c).X) in old(cur(c)).keys && forall k int :: {k in old(cur(c)).keys} k in old(cur(c)).keys ==> k >= rank(cmp, cur(c).X)
 //@   ensures  [C03] bottom: c != nil && old(len(c.path)) != 0 ==> len(c.path) >= old(len(c.path)) && cur(c).left == nil
 //@   ensures  [C03] leftward: c != nil ==> forall a int, b int :: {c.path[a], c.path[b]} old(len(c.path)) <= b && b == a + 1 && b < len(c.path) ==> c.path[b] == c.path[a].left
 //@   ensures  [C03] prefix: c != nil ==> samePrefix(c, old(len(c.path)))
@@ -331,10 +333,14 @@ package stree
 //@   loop 1: invariant [C03] shape: c != nil && len(c.path) >= old(len(c.path)) && len(c.path) > 0 && min == cur(c) && pathOK(c) && other_arrays_unchanged(c.path) && (c.path.base == old(c.path.base) || fresh(c.path))
 //@   loop 1: invariant [C03] prefix: samePrefix(c, old(len(c.path)))
 //@   loop 1: invariant [C03] leftward: forall a int, b int :: {c.path[a], c.path[b]} old(len(c.path)) <= b && b == a + 1 && b < len(c.path) ==> c.path[b] == c.path[a].left
+//@   loop 1: invariant [C03] ord: ordPath(c.path, cmp)
+//@   loop 1: invariant [C03] least: rank(cmp, min.X) in old(cur(c)).keys && forall k int :: {k in old(cur(c)).keys} k in old(cur(c)).keys ==> k in min.keys || k > rank(cmp, min.X)
 //@
 //@ func (*Cursor).Max
-//@   requires [C03] c != nil ==> pathOK(c)
-//@   ensures  [C03] same: result == c && (c != nil ==> pathOK(c))
+//@   ghost cmp func(T, T) int
+//@   requires [C03] c != nil ==> pathOK(c) && ordPath(c.path, cmp)
+//@   ensures  [C03] same: result == c && (c != nil ==> pathOK(c) && ordPath(c.path, cmp))
+//@   ensures  [C03] greatest: c != nil && old(len(c.path)) != 0 ==> rank(cmp, cur(c).X) in old(cur(c)).keys && forall k int :: {k in old(cur(c)).keys} k in old(cur(c)).keys ==> k <= rank(cmp, cur(c).X)
 //@   ensures  [C03] bottom: c != nil && old(len(c.path)) != 0 ==> len(c.path) >= old(len(c.path)) && cur(c).right == nil
 //@   ensures  [C03] rightward: c != nil ==> forall a int, b int :: {c.path[a], c.path[b]} old(len(c.path)) <= b && b == a + 1 && b < len(c.path) ==> c.path[b] == c.path[a].right
 //@   ensures  [C03] prefix: c != nil ==> samePrefix(c, old(len(c.path)))
@@ -343,6 +349,8 @@ package stree
 //@   loop 1: invariant [C03] shape: c != nil && len(c.path) >= old(len(c.path)) && len(c.path) > 0 && max == cur(c) && pathOK(c) && other_arrays_unchanged(c.path) && (c.path.base == old(c.path.base) || fresh(c.path))
 //@   loop 1: invariant [C03] prefix: samePrefix(c, old(len(c.path)))
 //@   loop 1: invariant [C03] rightward: forall a int, b int :: {c.path[a], c.path[b]} old(len(c.path)) <= b && b == a + 1 && b < len(c.path) ==> c.path[b] == c.path[a].right
+//@   loop 1: invariant [C03] ord: ordPath(c.path, cmp)
+//@   loop 1: invariant [C03] greatest: rank(cmp, max.X) in old(cur(c)).keys && forall k int :: {k in old(cur(c)).keys} k in old(cur(c)).keys ==> k in max.keys || k < rank(cmp, max.X)
 //@
 //@ func (*Cursor).findNext
 //@   requires [C03] c != nil && len(c.path) > 0 && pathOK(c)
